@@ -1341,6 +1341,55 @@ _CONF_FIELDS = ["source_entity_id", "dest_entity_id", "transaction_seq_num"]
 _S1_CREATORS = {1: "create_acceptance_success_tm", 3: "create_start_success_tm", 7: "create_completion_success_tm"}
 
 
+_HDR_SCALARS = [("transmission_mode", TransmissionMode), ("file_flag", LargeFileFlag), ("crc_flag", CrcFlag), ("direction", Direction),
+                ("seg_ctrl", SegmentationControl)]
+
+
+def _h_uslp_hdr(p):
+    from spacepackets.uslp.header import SourceOrDestField, BypassSequenceControlFlag, ProtocolCommandFlag
+    if _P(p, "trunc"):
+        return TruncatedPrimaryHeader(scid=_P(p, "scid"), src_dest=SourceOrDestField(_P(p, "srcdest")), vcid=_P(p, "vcid"),
+                                      map_id=_P(p, "mapid"))
+    vl = _P(p, "vcflen")
+    return PrimaryHeader(scid=_P(p, "scid"), src_dest=SourceOrDestField(_P(p, "srcdest")), vcid=_P(p, "vcid"), map_id=_P(p, "mapid"),
+                         frame_len=_P(p, "flen"), bypass_seq_ctrl_flag=BypassSequenceControlFlag(0),
+                         prot_ctrl_cmd_flag=ProtocolCommandFlag(0), op_ctrl_flag=bool(_P(p, "ocfflag")), vcf_count_len=vl,
+                         vcf_count=(0 if vl else None))
+
+
+def _h_opt(p, k):
+    return bytes(_P(p, k)) if _P(p, k + "_some") else None
+
+
+def _h_tfdf(p):
+    return TransferFrameDataField(c17._rules(_P(p, "rules")), c17._upid(_P(p, "upid")), bytes(_P(p, "tfdzlen")),
+                                  _P(p, "fhp") if _P(p, "fhp_some") else None)
+
+
+def _h_hdr_tfdf_frame(p):
+    hdr, tfdf = _h_uslp_hdr(p), _h_tfdf(p)
+    return {"hdr": hdr, "tfdf": tfdf, "fr": TransferFrame(hdr, tfdf, _h_opt(p, "iz"), _h_opt(p, "ocf"), _h_opt(p, "fecf"))}
+
+
+def _h_frame_decode(p, raw):
+    from spacepackets.uslp.frame import FrameType, VarFrameProperties
+    props = VarFrameProperties(has_insert_zone=bool(_P(p, "iz_some")), insert_zone_len=_P(p, "iz") if _P(p, "iz_some") else None,
+                               has_fecf=bool(_P(p, "fecf_some")), fecf_len=_P(p, "fecf") if _P(p, "fecf_some") else None,
+                               truncated_frame_len=0)
+    return TransferFrame.unpack(raw, FrameType.VARIABLE, props)
+
+
+def _h_s1_tm(p):
+    sub = _P(p, "sub")
+    data = bytes(RequestId.from_pus_tc(_h_tc(p)).pack()) + (bytes([3]) if sub == 5 else b"")
+    return PusTm(service=1, subservice=sub, timestamp=bytes(_P(p, "tslen")), source_data=data, apid=_P(p, "apid"),
+                 seq_count=_P(p, "count"))
+
+
+def _h_from_tm(p, tm):
+    return Service1Tm.from_tm(tm, pus1.UnpackParams(_P(p, "tslen"), 1, 1))
+
+
 def _h_scenario(name: str, p):
     """(setup() -> roots, act(roots) -> roots the call adds)"""
     kind = PDU_KINDS[_P(p, "kind")] if 0 <= _P(p, "kind") < 8 else None
@@ -1468,6 +1517,52 @@ def _h_scenario(name: str, p):
         r["pdu"].segment_metadata = arg
         return {} if arg is None else {"arg": arg}
     reg("filedata_set", lambda: _h_conf_objs_pdu("filedata", p), fd_set)
+    # ---- USLP frames, telemetry factories, PDU-level setters (DESIGN 13.10, second round) ----
+    reg("uslp_frame_ctor", lambda: {"hdr": _h_uslp_hdr(p), "tfdf": _h_tfdf(p)},
+        lambda r: {"fr": TransferFrame(r["hdr"], r["tfdf"], _h_opt(p, "iz"), _h_opt(p, "ocf"), _h_opt(p, "fecf"))})
+    reg("uslp_set_frame_len", lambda: _h_hdr_tfdf_frame(p), lambda r: r["fr"].set_frame_len_in_header() or {})
+
+    def frame_and_dec():
+        from spacepackets.uslp.frame import FrameType
+        r = _h_hdr_tfdf_frame(p)
+        r["fr"].set_frame_len_in_header()
+        r["raw"] = bytes(r["fr"].pack(frame_type=FrameType.VARIABLE))
+        r["dec"] = _h_frame_decode(p, r["raw"])
+        return r
+    reg("uslp_frame_unpack", frame_and_dec, lambda r: {"dec2": _h_frame_decode(p, r["raw"])})
+    reg("tm_from_composite",
+        lambda: {"hdr": _h_hdr(p), "sec": PusTmSecondaryHeader(_P(p, "service"), _P(p, "subservice"), bytes(_P(p, "tslen")), 0)},
+        lambda r: {"tm": PusTm.from_composite_fields(r["hdr"], r["sec"], bytes(_P(p, "dlen")))})
+    reg("service1_from_tm", lambda: {"tm": _h_s1_tm(p)}, lambda r: {"rep": _h_from_tm(p, r["tm"])})
+
+    def tm_and_rep():
+        tm = _h_s1_tm(p)
+        return {"tm": tm, "rep": _h_from_tm(p, tm)}
+    reg("service1_from_tm_twice", tm_and_rep, lambda r: {"rep2": _h_from_tm(p, r["tm"])})
+    reg("service1_default_twice",
+        lambda: {"a": Service1Tm(apid=_P(p, "apid"), subservice=Subservice(_P(p, "sub")), timestamp=bytes(_P(p, "tslen")))},
+        lambda r: {"b": Service1Tm(apid=_P(p, "apid2"), subservice=Subservice(_P(p, "sub")), timestamp=bytes(_P(p, "tslen")))})
+    if kind is not None:
+        def flag_set(r):
+            which, v, w2, pdu = _P(p, "set"), _P(p, "v"), _P(p, "w2"), r["pdu"]
+            if which == 0:
+                pdu.file_flag = LargeFileFlag(v)                      # Keep Alive, NAK: the classes that define the setter
+                return {}
+            if which == 1:
+                n, e = _HDR_SCALARS[_P(p, "attr")]
+                setattr(pdu.pdu_header, n, e(v))
+                return {}
+            if which == 2:
+                a, b = UnsignedByteField(v, w2), UnsignedByteField(v + 1, w2)
+                pdu.pdu_header.set_entity_ids(a, b)
+                return {"arg": a, "arg2": b}
+            if which == 3:
+                q = UnsignedByteField(v, w2)
+                pdu.pdu_header.transaction_seq_num = q
+                return {"arg": q}
+            getattr(pdu, _CONF_FIELDS[_P(p, "attr")]).value = v
+            return {}
+        reg("pdu_flag_set", lambda: _h_conf_objs_pdu(kind, p), flag_set)
     return S.get(name)
 
 
@@ -1573,6 +1668,16 @@ def _hview(x):
         elif isinstance(x, EofPdu):
             extra = [_snap_tlv(x.fault_location)]
         return [type(x).__name__, raw, _hview(x.pdu_header), int(x.packet_len)] + extra
+    if isinstance(x, (PrimaryHeader, TruncatedPrimaryHeader)):
+        return ["uslphdr", c17._header_fields(x)]
+    if isinstance(x, TransferFrameDataField):
+        return ["tfdf", c17._tfdf_fields(x)]
+    if isinstance(x, TransferFrame):
+        return ["frame", _hview(x.header), _hview(x.tfdf), _hview(x.insert_zone), _hview(x.op_ctrl_field), _hview(x.fecf)]
+    if isinstance(x, PacketFieldEnum):
+        return ["enum", int(x.pfc), int(x.val)]
+    if isinstance(x, FailureNotice):
+        return ["failure", _hview(x.code), hx(bytes(x.data))]
     t = _snap_tlv(x)
     return t
 
@@ -2026,6 +2131,14 @@ S1_PATHS = (["tm", "tm.pus_tm", "tm.packet_id", "tm.packet_seq_control"] + _rid_
             + _hdr_paths("tm.pus_tm.sp_header"))
 
 
+USLP_PATHS = ["hdr", "tfdf", "fr", "fr.header", "fr.tfdf"]
+
+
+def _rep_paths(n):
+    return ([n, f"{n}.pus_tm", f"{n}.pus_tm.pus_tm_sec_header", f"{n}.packet_id", f"{n}.packet_seq_control", f"{n}.step_id"]
+            + _rid_paths(f"{n}.tc_req_id") + _hdr_paths(f"{n}.sp_header") + _hdr_paths(f"{n}.pus_tm.sp_header"))
+
+
 def _conf_paths(n):
     return [n, f"{n}.source_entity_id", f"{n}.dest_entity_id", f"{n}.transaction_seq_num"]
 
@@ -2076,6 +2189,13 @@ def _alias_paths(name: str, kind: Optional[str], p) -> List[str]:
                                                           [n, f"{n}.file_store_responses", f"{n}.fault_location", f"{n}.segment_metadata"])],
         "finished_set": _conf_paths("conf") + _caller_paths("finished") + _pdu_paths("pdu", "finished") + ["arg", "arg.0"],
         "filedata_set": _conf_paths("conf") + _caller_paths("filedata") + _pdu_paths("pdu", "filedata") + ["arg"],
+        "uslp_frame_ctor": USLP_PATHS, "uslp_set_frame_len": USLP_PATHS,
+        "uslp_frame_unpack": USLP_PATHS + [q.replace("fr", d, 1) for d in ("dec", "dec2") for q in USLP_PATHS[2:]],
+        "tm_from_composite": _hdr_paths("hdr") + ["sec"] + TM_PATHS,
+        "service1_from_tm": TM_PATHS + _rep_paths("rep"),
+        "service1_from_tm_twice": TM_PATHS + _rep_paths("rep") + _rep_paths("rep2"),
+        "service1_default_twice": _rep_paths("a") + _rep_paths("b"),
+        "pdu_flag_set": cp + ["arg", "arg2"],
     }[name]
 
 
@@ -2092,7 +2212,13 @@ def _alias_base(rng: random.Random) -> Dict[str, int]:
             "nsegs": rng.randint(0, 3), "segs_none": 0, "fault": rng.randint(0, 1), "nresp": rng.choice([0, 2]),
             "delivery": rng.randint(0, 1), "status": rng.randint(0, 3), "closure": rng.randint(0, 1), "ctype": rng.choice([0, 15]),
             "opts": rng.randint(0, 1), "meta": rng.randint(0, 1), "state": rng.randint(0, 3), "metalen": rng.randint(0, 20),
-            "offset": rng.randint(0, U32)}
+            "offset": rng.randint(0, U32),
+            # USLP frames / service-1 reports from telemetry / PDU-level setters
+            "trunc": 0, "scid": rng.randint(0, 65535), "vcid": rng.randint(0, 63), "mapid": rng.randint(0, 15), "srcdest": rng.randint(0, 1),
+            "flen": rng.randint(0, 65535), "vcflen": rng.choice([0, 1, 2, 4]), "ocfflag": 0, "rules": rng.choice([3, 4, 5, 6, 7]),
+            "upid": rng.choice([0, 1, 4, 5]), "fhp_some": 0, "fhp": rng.randint(0, 65535), "tfdzlen": rng.randint(1, 30),
+            "iz_some": rng.randint(0, 1), "iz": rng.randint(1, 4), "ocf_some": 0, "ocf": 4, "fecf_some": rng.randint(0, 1),
+            "fecf": rng.choice([2, 4]), "sub": rng.choice([1, 3, 5, 7]), "w2": rng.choice([1, 2, 4, 8])}
 
 
 def alias_lines(rng: random.Random, thorough: bool) -> List[Dict[str, Any]]:
@@ -2168,6 +2294,35 @@ def alias_lines(rng: random.Random, thorough: bool) -> List[Dict[str, Any]]:
                 add("finished_set", kind=5, set=2, v=v, fault=fault)
             for nresp in (0, 2):
                 add("finished_set", kind=5, set=3, v=0, fault=fault, nresp=nresp)
+        # second round (DESIGN 13.10): USLP frames, telemetry factories, PDU-level setters, NAK without a list
+        for trunc in (0, 1):
+            for ocf in (0, 1):
+                add("uslp_frame_ctor", trunc=trunc, ocfflag=ocf, ocf_some=rng.randint(0, 1), fhp_some=rng.randint(0, 1), rules=rng.randint(0, 7))
+                add("uslp_set_frame_len", trunc=trunc, ocfflag=ocf, ocf_some=ocf, fhp_some=rng.randint(0, 1), rules=rng.randint(0, 7))
+        for ocf in (0, 1):
+            add("uslp_frame_unpack", ocfflag=ocf, ocf_some=ocf)
+        add("uslp_frame_unpack", iz_some=1, fecf_some=1)
+        for shf in (0, 1):
+            add("tm_from_composite", ptype=0, shf=shf)
+        for sub in (1, 3, 5, 7):
+            add("service1_from_tm", sub=sub)
+            add("service1_from_tm_twice", sub=sub)
+        add("service1_default_twice", sub=rng.choice([1, 3, 5, 7]))
+        add("two_pdus_one_conf", kind=3, kind2=3, segs_none=1)
+        for k, kind in enumerate(PDU_KINDS):
+            b = _alias_base(rng)
+            if kind in ("keepalive", "nak"):
+                for large in (0, 1):
+                    add("pdu_flag_set", kind=k, set=0, v=1 - large, large=large, end=rng.randint(0, 1000), progress=rng.randint(0, 1000))
+            attr = rng.randint(0, 4)
+            cur = [b["mode"], b["large"], b["crc"], b["dir"], b["segctrl"]][attr]
+            add("pdu_flag_set", kind=k, set=1, attr=attr, v=1 - cur, mode=b["mode"], large=b["large"], crc=b["crc"], dir=b["dir"],
+                segctrl=b["segctrl"], end=rng.randint(0, 1000), progress=rng.randint(0, 1000), size=rng.randint(0, 1000), offset=rng.randint(0, 1000))
+            add("pdu_flag_set", kind=k, set=2, v=rng.randint(0, 254))
+            add("pdu_flag_set", kind=k, set=3, v=rng.randint(0, 254))
+            attr = rng.randint(0, 2)
+            cur = [b["src_v"], b["dst_v"], b["seq_v"]][attr]
+            add("pdu_flag_set", kind=k, set=4, attr=attr, v=(cur + 1) % 256, src_v=b["src_v"], dst_v=b["dst_v"], seq_v=b["seq_v"])
         for meta in (0, 1):
             b = _alias_base(rng)
             add("filedata_set", kind=7, set=0, v=b["dlen"] + 1, dlen=b["dlen"], meta=meta)
@@ -2202,10 +2357,10 @@ class C11(Prop):
     _trusted_static = [
         "object identity: the aliasing clauses ('the caller's objects are not modified', request ID / space-packet view are "
         "snapshots, factory results are independent, what each constructor keeps of the caller's objects) are theorems over the "
-        "object-graph model Model/Heap.lean (Props/C11Heap.lean: 47 general theorems - frame lemmas, write sets of every constructor / "
+        "object-graph model Model/Heap.lean (Props/C11Heap.lean: 63 general theorems - frame lemmas, write sets of every constructor / "
         "factory / decoder, to_space_packet writes only the packet's own crc16 cache, separation and value snapshot for all TC / TM "
         "setter sequences and every depth, the alias relation of the returned PDU to the caller's PduConfig, keeps-caller-object "
-        "theorems, closure preservation - and 3 evaluated instances); that the model allocates, stores and writes where the Python "
+        "theorems, USLP frames (set_frame_len_in_header writes exactly the caller's frame_len), adoption by from_composite_fields / Service1Tm.from_tm, PDU-level flag setters invisible to the caller, closure preservation incl. every setter family - and 3 evaluated instances); that the model allocates, stores and writes where the Python "
         "code does is OBSERVED, not proved: op heap_alias compares the alias graph the model predicts for every scenario x parameter "
         "variant with `is` and deep value snapshots on the real objects, for the listed public access paths only (rule: every pair "
         "the model separates must be two objects, every modified object must be one the model writes; more separation / fewer "
